@@ -197,6 +197,11 @@ func (reader *H264Reader) NextNAL() (*NAL, error) {
 	reader.nalBuffer = nil
 	nal.parseHeader()
 
+	// An excluded SEI can only get here as the last unit of the stream.
+	if !reader.includeSEI && nal.UnitType == NalUnitTypeSEI {
+		return nil, io.EOF
+	}
+
 	return nal, nil
 }
 
